@@ -94,6 +94,9 @@ def run_case(case, rec):
             ok, out = safe(iocommon.write_with, dn.write_interactions, G, sc, target, delimiter=delim, encoding=enc)
             if rec.check('C10.write.call', ok, lambda: '%s write_interactions raised %r' % (ctx, out)):
                 raw, reopen, target_ok = out
+                # writing the same graph again (to memory) gives the same bytes: the writer keeps no state
+                ok2, out2 = safe(iocommon.write_with, dn.write_interactions, G, sc, 'bytesio', delimiter=delim, encoding=enc)
+                rec.check('C10.write.stable', ok2 and out2[0] == raw, lambda: '%s: a second write gave different bytes: %r vs %r' % (ctx, out2[0][:120] if ok2 else out2, raw[:120]))
                 rec.check('C10.target', target_ok, lambda: '%s: wrong magic bytes / file object closed by the writer' % ctx)
                 okd, rows = iocommon.decode_rows(raw, enc, delim)
                 exp_rows = [[str(a), str(b), op, str(t)] for a, b, op, t in S]
